@@ -4,6 +4,7 @@ import ThruVerif.Driver.CodecCmd
 import ThruVerif.Driver.SendFileCmd
 import ThruVerif.Driver.AdmissionCmd
 import ThruVerif.Driver.PathCmd
+import ThruVerif.Driver.SidecarCmd
 /-!
 `tvdriver`: one case per input line, one result per output line. The same lines are given to the Go
 harness, which runs the real code; the orchestrator diffs the two outputs.
@@ -29,6 +30,9 @@ def handle (line : String) : String :=
   | "sched" :: ws => handleSched ws
   | "adm" :: ws => handleAdm ws
   | "recvfx" :: ws => handleRecvFx ws
+  | "scparse" :: ws => handleScParse ws
+  | "scser" :: ws => handleScSer ws
+  | "scload" :: ws => handleScLoad ws
   | "clean" :: ws => handlePath "clean" ws
   | "join" :: ws => handlePath "join" ws
   | "isabs" :: ws => handlePath "isabs" ws
